@@ -23,6 +23,8 @@ SELECTIONS = [
     ('include-core-structural', {'include': ['CORE', 'STRUCTURAL']}),
     ('exclude-pitch', {'exclude': ['PITCH']}),
     ('exclude-duration', {'exclude': ['DURATION']}),
+    ('exclude-duration-rest', {'exclude': ['DURATION', 'REST']}),
+    ('include-note-chord-structure', {'include': ['NOTE', 'CHORD', 'STRUCTURAL', 'BARLINES']}),
 ]
 
 
@@ -148,6 +150,14 @@ def check_doc(acc, job):
                 if x != y and not (x in A.NULLS and y in A.NULLS):
                     sym = 'chord-note-lost' if c.spec['k'] == 'c' and len(y.split(' ')) != len(x.split(' ')) else 'basic-is-not-full-minus-signifiers'
                     acc.violation(Viol('bekern-vs-ekern', sym, case, x, y))
+                # independent of how the full encoding marks signifiers: a basic note may only consist of main parts of the abstract note
+                if c.spec['k'] in ('n', 'c') and y not in A.NULLS:
+                    notes_s = [c.spec] if c.spec['k'] == 'n' else c.spec['notes']
+                    for yn, sn in zip(y.split(' '), notes_s):
+                        allowed = {t for t, _ in sn['main']}
+                        extra = [p_ for p_ in yn.replace('·', '@').split('@') if p_ and p_ not in allowed and p_ not in A.NULLS]
+                        if extra and set(extra) <= set(sn['dec']):
+                            acc.violation(Viol('bekern-vs-ekern', 'basic-encoding-keeps-a-signifier', case, sorted(allowed), yn))
         # non-note cells identical in all six encodings (headers aside)
         for ri, (re_, r) in enumerate(zip(ge, rows)):
             for ci, (ce, c) in enumerate(zip(re_, r['cells'])):
